@@ -29,7 +29,7 @@ REQUIRED = ["contract:Assertion.set_p_values", "contract:Audit.summarize_status"
             "assertions_recomputed", "status:complete", "status:incomplete", "mixed_confirmed_and_unconfirmed",
             "p_equal_to_limit_confirmed", "second_call_same_length_different_data", "contest_meets_neighbours_limit_not_own",
             "params_silent", "params_rejected", "proved_sticky_observed",
-            "test_objects_hold_another_bound_before_call"]
+            "test_objects_hold_another_bound_before_call", "tests_configured_with_random_order_false"]
 ASSUMPTIONS = ["samples have at least one observation per assertion", "summarize_status prints: stdout is swallowed, not parsed"]
 N_CASES = {"quick": 9600, "thorough": 80000}
 
@@ -186,6 +186,15 @@ def run_case(es, rec):
                 asn.test.kwargs["g"] = 0
     A, audit = sim.L["Assertion"], sim.audit
     rng = random.Random(es.get("_seed", 0))
+    if rng.random() < 0.2:
+        # tests configured for data that are NOT in random order (the overall p-value is then the last history entry, not
+        # the smallest): the recorded value must still be what the configured test returns
+        for con in sim.contests.values():
+            for asn in con.assertions.values():
+                # (the finite-population SPRT refuses data that are not in random order, as documented)
+                if getattr(asn.test.test, "__name__", "") != "wald_sprt":
+                    asn.test.random_order = False
+        rec.count("tests_configured_with_random_order_false")
     sink = io.StringIO()
     # parameter sanity
     with contextlib.redirect_stdout(sink):
